@@ -124,7 +124,14 @@ class SqlParseColumn(Column):
                 source_columns = [
                     ColumnQualifierTuple(
                         src_col.raw_name,
-                        src_col.parent.raw_name if src_col.parent else None,
+                        (
+                            # the innermost query may have no table to read from, its column then belongs to a subquery
+                            src_col.parent.raw_name
+                            if isinstance(src_col.parent, Table)
+                            else str(src_col.parent)
+                        )
+                        if src_col.parent
+                        else None,
                     )
                     for src_col in src_cols
                 ]
